@@ -176,7 +176,7 @@ func Main(prop, level string, scenarios []Scenario, describe func(r *mc.Run)) {
 // runOne executes the scenario once under the scheduler with the given prefix.
 func runOne(s Scenario, prefix []int, expect []vrt.Choice) (*Ctx, []vrt.Choice, vrt.Verdict) {
 	c := &Ctx{cnt: map[string]int{}}
-	base := fmt.Sprintf("/dev/shm/verif-e3-%d", os.Getpid())
+	base := fmt.Sprintf("%s/verif-e3-%d", mc.ShmBase(), os.Getpid())
 	os.MkdirAll(base, 0o755)
 	dirSeq++
 	c.Dir = fmt.Sprintf("%s/x%d", base, dirSeq)
@@ -317,7 +317,7 @@ func worker(prop string, scenarios []Scenario) {
 	res := vrt.Explore(ph.Bound, s.MaxSteps, *fShard, *fNShards, deadline, func() {
 		// body wrapper: runOne is not used here because Explore owns the Run call
 		cur = &Ctx{cnt: map[string]int{}}
-		base := fmt.Sprintf("/dev/shm/verif-e3-%d", os.Getpid())
+		base := fmt.Sprintf("%s/verif-e3-%d", mc.ShmBase(), os.Getpid())
 		dirSeq++
 		cur.Dir = fmt.Sprintf("%s/x%d", base, dirSeq)
 		os.MkdirAll(cur.Dir, 0o755)
@@ -392,7 +392,7 @@ func worker(prop string, scenarios []Scenario) {
 		}
 		return true
 	})
-	os.RemoveAll(fmt.Sprintf("/dev/shm/verif-e3-%d", os.Getpid()))
+	os.RemoveAll(fmt.Sprintf("%s/verif-e3-%d", mc.ShmBase(), os.Getpid()))
 	emit(msg{T: "done", Execs: execs, Steps: steps, Points: res.Points, MaxPts: res.MaxPoints, Complete: res.Complete && !violated, Outcomes: outcomes, Traces: len(traces), Counters: counters, Sample: sample})
 }
 
@@ -668,7 +668,7 @@ type FreeSummary struct {
 // is the supplementary data-race pass; its outcomes are also compared with the explorer's.
 func freeRun(prop string, scenarios []Scenario) {
 	sum := FreeSummary{Iterations: *fFree, Outcomes: map[string]map[string]int{}}
-	base := fmt.Sprintf("/dev/shm/verif-free-%d", os.Getpid())
+	base := fmt.Sprintf("%s/verif-free-%d", mc.ShmBase(), os.Getpid())
 	defer os.RemoveAll(base)
 	for _, s := range scenarios {
 		if len(s.Quick) == 0 {
